@@ -15,7 +15,7 @@ PROPS = {
     },
 }
 PROPS["C10"] = {
-    "sidecars": ["c10_change.py", "c10_taskhandle.py", "c11_history.py"],
+    "sidecars": ["c10_change.py", "c10_taskhandle.py", "c11_history.py", "c11_leaves.py"],
     "level": "proof",
     "claim": "Proof level: ChangeSet.do/undo restore the ghost tree on any single failure (loop invariants over apply/unapply, rollback in reverse "
              "order), the job-set wrapper never fails after the leaf's effect, JobSet.finished_job never raises, History.do/_perform_undos/_perform_redos "
@@ -26,7 +26,7 @@ PROPS["C10"] = {
     "undecided": ["failure inside the rollback itself (second fault)", "selective undo of several dependent changes failing part-way"],
 }
 PROPS["C11"] = {
-    "sidecars": ["c11_history.py", "c10_change.py"],
+    "sidecars": ["c11_history.py", "c10_change.py", "c11_leaves.py"],
     "level": "proof",
     "claim": "Proof level for the list discipline and the inverse laws of plain undo/redo: History.do clears redo, keeps the undo list within the "
              "limit (_remove_extra_items), undo/redo with empty lists are refused without effect (HistoryError exceptional post), plain undo moves exactly "
